@@ -150,7 +150,7 @@ def _parse_witness(out, want_note=None):
 def search(pid, ob, repo, scratch):
     ops = ops_for(ob.get('fn', ''))
     fn = ob.get('fn', '')
-    if ob.get('unit') == 'eval_ctx' or fn.startswith('eval_') or fn.startswith('model::Context::'):
+    if ob.get('unit') == 'eval_ctx' or fn.startswith('eval_') or fn.startswith('model::Context::') or (pid == 'C06' and fn.startswith('xpath::func::')):
         # evaluator skeleton: the witness is a whole query through xml_xpath::query on a real parsed document
         ops = {'C19': ['xpath.query.ctx_reuse'], 'C07': ['xpath.query.order'], 'C06': ['xpath.query.no_panic']}.get(pid, [])
     if not ops:
